@@ -6,7 +6,7 @@ CXX_SOURCES = ['libs/acn/CID.cpp', 'libs/acn/CIDImpl.cpp']
 # Coq models of libc / libuuid (Libc.v) against the platform's functions: a mismatch there means
 # the libc model is wrong, not that OLA violates the property.
 SPEC_KEYS = ['ok', 'v', 'pok', 'pv', 't', 'p', 's', 'rt', 'd', 'back', 'a', 'eq', 'nil', 'wrap', 'n',
-             'pure', 'mis', 'cnt']
+             'pure', 'mis', 'cnt', 'exc']
 INTERNAL_KEYS = []
 
 RULE = ('every value -> text -> value for ALL 8-bit and ALL 16-bit values (both tiers) of every '
@@ -268,6 +268,78 @@ def cid_text(rng):
     return s + s
 
 
+def ip6_values(rng, n):
+    """boundary-biased 128-bit values as lists of eight 16-bit groups"""
+    big = lambda: rng.choice([0x1000, 0xffff, 0xabcd, 0x8000, rng.randrange(0x1000, 0x10000)])
+    any16 = lambda: rng.choice([0, 0, 1, 0xf, 0x10, 0xff, 0x100, 0xfff, 0x1000, 0xffff, rng.randrange(65536)])
+    out = [[0xffff] * 8, [0x1000] * 8, [0] * 8, [0] * 7 + [1], [1] + [0] * 7, [0] * 7 + [0x1000]]
+    for k in range(8):                       # a single zero group in every position (never compressed)
+        out.append([big() if i != k else 0 for i in range(8)])
+        out.append([big() if i != k else 1 for i in range(8)])      # 36..38 characters
+    for start in range(8):                   # one zero run of every length at every position
+        for ln in range(2, 9 - start):
+            out.append([0 if start <= i < start + ln else big() for i in range(8)])
+    # two runs: equal length (leftmost wins), longer second, longer first
+    out += [[1, 0, 0, 2, 0, 0, 3, 4], [1, 0, 0, 2, 0, 0, 0, 4], [1, 0, 0, 0, 2, 0, 0, 4], [0, 0, 1, 0, 0, 2, 0, 0],
+            [0, 0, 1, 2, 3, 0, 0, 0], [0, 1, 0, 1, 0, 1, 0, 1], [1, 0, 1, 0, 1, 0, 1, 0], [0, 0, 1, 1, 1, 1, 0, 0]]
+    # v4-mapped / v4-compatible and their neighbours
+    for hi, lo in [(0x0102, 0x0304), (0xffff, 0xffff), (0, 1), (1, 0), (0, 0x0100), (0xc0a8, 0x00ff), (0, 0xffff)]:
+        out += [[0, 0, 0, 0, 0, 0xffff, hi, lo], [0, 0, 0, 0, 0, 0, hi, lo], [0, 0, 0, 0, 0, 0xfffe, hi, lo],
+                [0, 0, 0, 0, 1, 0xffff, hi, lo], [1, 0, 0, 0, 0, 0xffff, hi, lo], [0, 0, 0, 0, 0xffff, 0, hi, lo],
+                [0, 0, 0, 0, 0xffff, 0xffff, hi, lo]]
+    out += [[0xfe80, 0, 0, 0, 0x0202, 0xb3ff, 0xfe1e, 0x8329], [0x2001, 0xdb8, 0, 0, 0, 0, 0, 1],
+            [0x2001, 0xdb8, 0x85a3, 0, 0, 0x8a2e, 0x370, 0x7334], [0xff02, 0, 0, 0, 0, 0, 0, 0xfb]]
+    for _ in range(n):
+        r = rng.random()
+        if r < 0.3:
+            out.append([big() for _ in range(8)])
+        elif r < 0.7:
+            out.append([any16() for _ in range(8)])
+        else:
+            out.append([rng.choice([0, 0, 0, big(), 1]) for _ in range(8)])
+    return out
+
+
+def ip6_hex(ws):
+    return ''.join('%04x' % w for w in ws)
+
+
+def ip6_text(rng):
+    ws = rng.choice(ip6_values(rng, 3))
+    import ipaddress
+    good = [str(ipaddress.IPv6Address(int(ip6_hex(ws), 16))), ':'.join('%x' % w for w in ws),
+            ':'.join('%04X' % w for w in ws), ':'.join('%x' % w for w in ws[:6]) + ':%d.%d.%d.%d' % (ws[6] >> 8, ws[6] & 255, ws[7] >> 8, ws[7] & 255)]
+    t = rng.choice(good)
+    r = rng.random()
+    if r < 0.45:
+        return t
+    k = rng.randrange(20)
+    if k == 0: return t + rng.choice([':', '::', ' ', '\0', '\0x', '%eth0', '/64', '.', ':0', ':1.2.3.4'])
+    if k == 1: return rng.choice([':', ' ', '0', '::', '0:']) + t
+    if k == 2: return t.replace(':', '::', 1)
+    if k == 3: return t.replace(':', '', 1)
+    if k == 4:
+        i = rng.randrange(len(t) + 1)
+        return t[:i] + rng.choice(['g', ' ', '-', '+', 'x', ':', '.', '0', 'f', 'fffff', '00000']) + t[i:]
+    if k == 5: return t[:-1] if t else t
+    if k == 6: return rng.choice(['', ':', '::', ':::', '::::', '1', '1:', ':1', '1::', '::1', '1::1', '1:2:3:4:5:6:7::', '::2:3:4:5:6:7:8',
+                                  '1:2:3:4:5:6:7:8::', '::1:2:3:4:5:6:7:8', '1::2:3:4:5:6:7:8', '1:2:3:4::5:6:7:8', '1:2:3:4:5:6:7:8:9',
+                                  '1::2::3', '12345::', '::12345', '0000::', '::0000', '00000::', '::ffff:1.2.3.4', '::1.2.3.4', '::ffff:1.2.3',
+                                  '::ffff:1.2.3.4.5', '::ffff:256.2.3.4', '::ffff:01.2.3.4', '1:2:3:4:5:6:1.2.3.4', '1:2:3:4:5:6:7:1.2.3.4',
+                                  '1:2:3:4:5:1.2.3.4', '::1.2.3.4:5', '1.2.3.4', '1.2.3.4::', '::1.2.3.4.', '::.1.2.3', '::1..2.3', '::ffff:1.2.3.4 ',
+                                  'fe80::1%eth0', '[::1]', '::g', 'G::', '::0x1', '0x1::', '1:2:3:4:5:6:7', '::f.1.2.3', '::1f.1.2.3', '::1:1.2.3.4',
+                                  'a:b:c:d:e:f:1.2.3.4', 'A:B:C:D:E:F:0:1', '1:2:3:4:5:6::1.2.3.4', '1:2:3:4:5::1.2.3.4', '::1.2.3.4::'])
+    if k == 7: return t.upper()
+    if k == 8: return t.replace(':', ':0', 1)
+    if k == 9: return t.replace(':', ':000', 1)
+    if k == 10: return t.replace('.', '..', 1) if '.' in t else t + '.1'
+    if k == 11: return t + ':' + rng.choice(['1', 'ffff', '1.2.3.4'])
+    if k == 12: return t.replace('::', ':') if '::' in t else t.replace(':', '::', 2)
+    if k == 13: return t.replace(':', ' :', 1)
+    if k == 14: return t[1:]
+    return t
+
+
 def sweep_values(bits, signed):
     if signed:
         return range(-(1 << (bits - 1)), 1 << (bits - 1))
@@ -430,13 +502,14 @@ def gen_cases(rng, tier):
     for i in range(600 * m):
         a = bytes(rng.choice([0, 1, 10, 127, 255, rng.randrange(256)]) for _ in range(4)).hex()
         yield 'sav %s %d' % (a, rng.choice([0, 1, 9, 10, 80, 65535, 65534, 32768, rng.randrange(65536)]))
-    for i in range(300 * m):
-        bs = bytes(rng.choice([0, 0, 0, 255, 1, rng.randrange(256)]) for _ in range(16))
-        yield 'ip6v %s' % bs.hex()
-        t = rng.choice(['::', '::1', '1::', 'fe80::1', '::ffff:1.2.3.4', '1:2:3:4:5:6:7:8', '1:2:3:4:5:6:7', '', ':', ':::',
-                        '1:2:3:4:5:6:7:8:9', 'g::', '::1 ', ' ::1', '::1\0x', '12345::', '::1.2.3', '1::2::3',
-                        '1:2:3:4:5:6:1.2.3.4', 'fe80::1%eth0'])
-        yield 'ip6 %s' % hx(t)
+    for ws in ip6_values(rng, 600 * m):
+        yield 'ip6v %s' % ip6_hex(ws)
+    for ws in ip6_values(rng, 100 * m):
+        yield 'strm ip6 %d %d %d %d %d %s' % (rng.choice([0, 1, 2, 3]), rng.choice([10, 16]), rng.choice([32, 48, 42]),
+                                              rng.choice([0, 5, 38, 39, 40, 46, 50]), rng.choice([0, 80, 255, 65535, 1 << 31]),
+                                              ip6_hex(ws))
+    for i in range(2500 * m):
+        yield 'ip6 %s' % hx(ip6_text(rng))
     for i in range(800 * m):
         yield 'cid %s' % hx(cid_text(rng))
     for i in range(400 * m):
